@@ -61,115 +61,57 @@ theorem C08_liquidated_was_outside (cfg : Cfg) (s s' : St) (keeper borrower : Us
 
 example : syncedWithin W.cfg W.st 0 = true := by decide
 
-/-
-  FALSE on the current code (finding F5, findings/C08-borrow-ltv-rounding.md):
-
-  theorem C08_borrow_within_ltv (cfg) (cash reserves totB dep bor new : Coins)
-      (h : validateBorrow cfg cash reserves totB dep bor new = .ok ()) :
-      isWithinLtv cfg dep (addC bor new) = .ok true
-
-  `ValidateBorrow` adds Σ value(new coins) and Σ value(existing borrow); liquidation values the merged
-  borrow.  Each per-denom value is rounded half-even, so value(e) + value(n) and value(e + n) can differ by an ulp.
--/
-
-/-- witness: conversion factor 10^6, price 1.000000000000000001, borrowing power exactly 1.0, an existing
-    borrow of 500000 and a new borrow of 500000: accepted by `ValidateBorrow`, outside the range for
-    `IsWithinValidLtvRange`. -/
-theorem C08_borrow_within_ltv_counterexample :
-    ¬ (∀ (cfg : Cfg) (cash reserves totB dep bor new : Coins),
-        validateBorrow cfg cash reserves totB dep bor new = .ok () →
-        isWithinLtv cfg dep (addC bor new) = .ok true) := by
-  intro H
-  have h1 : validateBorrow W.cfg W.big zeroC zeroC W.dep W.half W.half = .ok () := by decide
-  have h2 := H _ _ _ _ _ _ _ h1
-  have h3 : isWithinLtv W.cfg W.dep (addC W.half W.half) = .ok false := by decide
-  rw [h3] at h2; cases h2
-
-/-- the same on the keeper: the second `Borrow` of 500000 is accepted and the position it stores is
-    outside the range (an immediate `AttemptKeeperLiquidation` succeeds). -/
-theorem C08_borrow_within_ltv_keeper_counterexample :
-    ¬ (∀ (cfg : Cfg) (s s' : St) (u : User) (coins : Coins), borrow cfg s u coins = .ok s' →
-        isWithinLtv cfg (s'.dep u) (s'.bor u) = .ok true) := by
-  intro H
-  have hb : borrowKeepsWithin W.cfg W.st 0 W.half = false := by decide
-  unfold borrowKeepsWithin at hb
-  split at hb
-  · rename_i s' hs
-    rw [H _ _ _ _ _ hs] at hb
-    simp at hb
-  · cases hb
-
-/-- … and that stored position is liquidated in the same block -/
-theorem C08_borrow_then_liquidated_counterexample :
-    (match borrow W.cfg W.st 0 W.half with
-     | .ok s' => (liquidate W.cfg s' 1 0).isOk
-     | _ => false) = true := by decide
-
-/-- PARTIAL (what is true). (a) If no denom is both in the existing borrow and in the new coins the two
-    routines agree and an accepted borrow is within range for liquidation. -/
-theorem C08_borrow_within_ltv_partial (cfg : Cfg) (cash reserves totB dep bor new : Coins)
-    (hb : ∀ d, 0 ≤ bor d) (hn : ∀ d, 0 ≤ new d) (hdis : ∀ d, bor d = 0 ∨ new d = 0)
+/-- "After any successful borrow … the account's borrowed value is within the loan-to-value limit of its deposits
+    at current prices": since fix 68803c96d `ValidateBorrow` — besides comparing Σ value(new) with
+    Σ value(deposit)·LTV − Σ value(existing) — requires `IsWithinValidLtvRange` (the routine liquidation uses) on the
+    position that will be stored, existing and new coins merged per denom.  (Finding F5, fixed:
+    findings/C08-borrow-ltv-rounding.md.) -/
+theorem C08_borrow_within_ltv (cfg : Cfg) (cash reserves totB dep bor new : Coins)
     (h : validateBorrow cfg cash reserves totB dep bor new = .ok ()) :
-    isWithinLtv cfg dep (addC bor new) = .ok true := by
-  obtain ⟨hpd, hpb, hpn, hle, -, -⟩ := validateBorrow_ok _ _ _ _ _ _ _ h
-  apply isWithinLtv_ok_true _ _ _ (pricesOk_add cfg bor new hb hn hpb hpn) hpd
-  rw [valueOf_add_disjoint cfg bor new hb hn hdis]; omega
+    isWithinLtv cfg dep (addC bor new) = .ok true :=
+  (validateBorrow_ok _ _ _ _ _ _ _ h).2.2.2.2.2.2
 
-example : validateBorrow W.cfg W.big zeroC zeroC W.dep zeroC W.half = .ok () := by decide
+example : validateBorrow W.cfg W.big zeroC zeroC W.dep W.half W.small = .ok () := by decide
 
-/-- (b) In general, for conversion factors dividing 10^18 (every power of ten up to 10^18), the merged borrow
-    exceeds the borrowing power by at most one ulp (10^-18 USD) per denom that is both existing and new. -/
-theorem C08_borrow_within_ltv_partial_ulp (cfg : Cfg) (hx : ExactCf cfg) (cash reserves totB dep bor new : Coins)
-    (hb : ∀ d, 0 ≤ bor d) (hn : ∀ d, 0 ≤ new d)
-    (h : validateBorrow cfg cash reserves totB dep bor new = .ok ()) :
-    valueOf cfg (addC bor new) - borrowable cfg dep ≤
-      ((cfg.ds.filter (fun d => decide (0 < bor d) && decide (0 < new d))).length : Int) := by
-  obtain ⟨-, -, -, hle, -, -⟩ := validateBorrow_ok _ _ _ _ _ _ _ h
-  have := valueOf_add_le cfg hx bor new hb hn
-  omega
+/-- the former F5 witness (cf 10^6, price 1.000000000000000001, borrowing power 1.0, 500000 existing + 500000 new:
+    0.5 + 0.5 ≤ 1.0 but the merged borrow is worth 1.000000000000000001) is now refused -/
+example : validateBorrow W.cfg W.big zeroC zeroC W.dep W.half W.half = .err .insufficientLtv := by decide
+
+/-- the same for the keeper's `Borrow` (which syncs the position first): the stored position is within the range as
+    liquidation computes it. -/
+theorem C08_borrow_within_ltv_keeper (cfg : Cfg) (s s' : St) (u : User) (coins : Coins)
+    (h : borrow cfg s u coins = .ok s') : isWithinLtv cfg (s'.dep u) (s'.bor u) = .ok true := by
+  obtain ⟨s2, hv, ed, eb, -, -⟩ := borrow_ok_spec cfg s s' u coins h
+  rw [ed, eb]
+  exact (validateBorrow_ok _ _ _ _ _ _ _ hv).2.2.2.2.2.2
+
+example : (borrow W.cfg W.st 0 W.small).isOk = true := by decide
+example : borrowKeepsWithin W.cfg W.st 0 W.small = true := by decide
+/-- the second `Borrow` of 500000 of the former witness is refused by the keeper -/
+example : (borrow W.cfg W.st 0 W.half).isOk = false := by decide
+
+/-- … hence the position `Borrow` just stored cannot be liquidated by anyone in the same block (same prices and
+    indexes; re-syncing at the factors just used adds nothing; factors between 0 and 10^18). -/
+theorem C08_borrow_then_not_liquidatable (cfg : Cfg) (s s' : St) (u : User) (coins : Coins) (hc : ∀ d, 0 ≤ coins d)
+    (hB : ∀ d ∈ cfg.ds, ∀ v, s.brwIdx d = some v → 0 ≤ v ∧ v ≤ P * P)
+    (hS : ∀ d ∈ cfg.ds, ∀ v, s.supIdx d = some v → 0 ≤ v)
+    (h : borrow cfg s u coins = .ok s') : ∀ keeper, (liquidate cfg s' keeper u).isOk = false :=
+  borrow_then_not_liquidatable cfg s s' u coins hc hB hS h
+
+/-- why the extra check was needed: for conversion factors dividing 10^18 the value of a merged borrow exceeds the sum
+    of the separately rounded values by at most one ulp (10^-18 USD) per denom present in both — and can exceed it. -/
+theorem C08_merged_valuation_within_ulp (cfg : Cfg) (hx : ExactCf cfg) (bor new : Coins)
+    (hb : ∀ d, 0 ≤ bor d) (hn : ∀ d, 0 ≤ new d) :
+    valueOf cfg (addC bor new) ≤ valueOf cfg bor + valueOf cfg new +
+      ((cfg.ds.filter (fun d => decide (0 < bor d) && decide (0 < new d))).length : Int) :=
+  valueOf_add_le cfg hx bor new hb hn
 
 example : ExactCf W.cfg := by
   intro d hd
   have : d = 0 ∨ d = 1 := by simpa [W.cfg] using hd
   rcases this with rfl | rfl <;> decide
 
-/-- the same two statements for the keeper's `Borrow` (which syncs the position first): the stored position is
-    within range when the user had no borrow in the borrowed denoms, and in general exceeds the borrowing power by
-    at most one ulp per merged denom. -/
-theorem C08_borrow_within_ltv_keeper_partial (cfg : Cfg) (s s' : St) (u : User) (coins : Coins)
-    (hb : ∀ d ∈ cfg.ds, 0 ≤ s.bor u d) (hc : ∀ d ∈ cfg.ds, 0 ≤ coins d)
-    (h : borrow cfg s u coins = .ok s') :
-    ((∀ d ∈ cfg.ds, s.bor u d = 0 ∨ coins d = 0) → isWithinLtv cfg (s'.dep u) (s'.bor u) = .ok true) ∧
-    (ExactCf cfg → valueOf cfg (s'.bor u) - borrowable cfg (s'.dep u) ≤ ((supp cfg.ds coins).length : Int)) := by
-  obtain ⟨s2, hv, ed, eb, hge, hz⟩ := borrow_ok_spec cfg s s' u coins h
-  obtain ⟨hpd, hpb, hpn, hle, -, -⟩ := validateBorrow_ok _ _ _ _ _ _ _ hv
-  have hb2 : ∀ d ∈ cfg.ds, 0 ≤ s2.bor u d := fun d hd => by have := hge d hd; have := hb d hd; omega
-  rw [ed, eb]
-  constructor
-  · intro hdis
-    have hdis2 : ∀ d ∈ cfg.ds, s2.bor u d = 0 ∨ coins d = 0 := by
-      intro d hd
-      rcases hdis d hd with e | e
-      · exact Or.inl (hz d hd e)
-      · exact Or.inr e
-    apply isWithinLtv_ok_true _ _ _ (pricesOk_add' cfg _ _ hb2 hc hpb hpn) hpd
-    rw [valueOf_add_disjoint' cfg _ _ hdis2]; omega
-  · intro hx
-    have h1 := valueOf_add_le' cfg hx (s2.bor u) coins hb2 hc
-    have h2 : ((cfg.ds.filter (fun d => decide (0 < s2.bor u d) && decide (0 < coins d))).length : Int) ≤
-        ((supp cfg.ds coins).length : Int) := by
-      unfold supp
-      have : (cfg.ds.filter (fun d => decide (0 < s2.bor u d) && decide (0 < coins d))).length ≤
-          (cfg.ds.filter (fun d => decide (0 < coins d))).length := by
-        apply List.Sublist.length_le
-        apply List.monotone_filter_right
-        intro d hd
-        simp only [Bool.and_eq_true] at hd
-        exact hd.2
-      omega
-    omega
-
-example : (borrow W.cfg W.st 0 W.half).isOk = true := by decide
+example : valueOf W.cfg (addC W.half W.half) = valueOf W.cfg W.half + valueOf W.cfg W.half + 1 := by decide
 
 /-- consequence of `C08_withdraw_within_ltv` for the same block: the position `Withdraw` just stored cannot be
     liquidated by anyone at the same prices and indexes (re-syncing at the factors it was just synced at adds
@@ -200,70 +142,35 @@ theorem C08_borrow_index_monotone (cfg : Cfg) (s s' : St) (d : Denom) (now : Int
 
 example : (accrue W.cfg W.st 1 31536000 ⟨P + P / 10⟩ true).isOk = true := by decide
 
-/-
-  FALSE on the current code (finding F4, findings/C08-supply-index.md):
-
-  theorem C08_supply_index_monotone (cfg s s' d now phi apyPos) (hphi : P ≤ phi.m)
-      (h0 : ∀ v, s.supIdx d = some v → 0 ≤ v) (h : accrue cfg s d now phi apyPos = .ok s') :
-      (s.supIdx d).getD P ≤ (s'.supIdx d).getD P
-
-  `CalculateSupplyInterestFactor` returns 1 + interest / (cash + borrows − reserves); the denominator is
-  negative once reserves exceed cash + borrows, and the factor is below one.
--/
-
-/-- witness: cash 0, borrowed 10, reserves 100, factor 2.0 → supply interest 10 over a "total supply" of −90:
-    the supply index goes from 1.0 to 0.888… -/
-theorem C08_supply_index_monotone_counterexample :
-    ¬ (∀ (cfg : Cfg) (s s' : St) (d : Denom) (now : Int) (phi : Dec) (apyPos : Bool), P ≤ phi.m →
-        (∀ v, s.supIdx d = some v → 0 ≤ v) → accrue cfg s d now phi apyPos = .ok s' →
-        (s.supIdx d).getD P ≤ (s'.supIdx d).getD P) := by
-  intro H
-  have hk : supplyIdxKept W.cfg W.stF4 0 1 ⟨2 * P⟩ true = false := by decide
-  unfold supplyIdxKept at hk
-  split at hk
-  · rename_i s' hs
-    have := H W.cfg W.stF4 s' 0 1 ⟨2 * P⟩ true (by decide) (by intro v hv; cases hv; decide) hs
-    simp [this] at hk
-  · cases hk
-
-/-- PARTIAL: while reserves ≤ cash + borrows for the denom, the supply index does not decrease
-    (`phi ≥ 1` is not even needed: a successful accrual has non-negative supply interest). -/
-theorem C08_supply_index_monotone_partial (cfg : Cfg) (s s' : St) (d : Denom) (now : Int) (phi : Dec) (apyPos : Bool)
-    (h0 : ∀ v, s.supIdx d = some v → 0 ≤ v) (hres : s.reserves d ≤ s.cash d + s.borrowed d)
+/-- "a deposit's claimable amount … never decrease[s] as interest accrues" — the supply index of every denom is
+    non-decreasing across `AccrueInterest`: since fix 485ea145c `CalculateSupplyInterestFactor` returns 1 when
+    cash + borrows − reserves is not positive (it used to return 1 + interest/(negative) < 1).  `phi ≥ 1` is not
+    needed: a successful accrual has non-negative supply interest.  (Finding F4, fixed: findings/C08-supply-index.md.) -/
+theorem C08_supply_index_monotone (cfg : Cfg) (s s' : St) (d : Denom) (now : Int) (phi : Dec) (apyPos : Bool)
+    (h0 : ∀ v, s.supIdx d = some v → 0 ≤ v)
     (h : accrue cfg s d now phi apyPos = .ok s') :
     ∀ e, (s.supIdx e).getD P ≤ (s'.supIdx e).getD P := by
-  obtain ⟨hoth, hd, -⟩ := accrue_supIdx cfg s s' d now phi apyPos h0 hres h
+  obtain ⟨hoth, hd, -⟩ := accrue_supIdx cfg s s' d now phi apyPos h0 h
   intro e
   by_cases he : e = d
   · subst he; exact hd
   · rw [hoth e he]
 
-example : W.st.reserves 1 ≤ W.st.cash 1 + W.st.borrowed 1 := by decide
+/-- the former F4 witness (cash 0, borrowed 10, reserves 100, factor 2.0: index went 1.0 → 0.888…) keeps the index -/
+example : supplyIdxKept W.cfg W.stF4 0 1 ⟨2 * P⟩ true = true := by decide
+example : (accrue W.cfg W.stF4 0 1 ⟨2 * P⟩ true).isOk = true := by decide
 
-/-
-  FALSE on the current code (findings/C08-accrue-div-zero.md): "AccrueInterest never panics"
-  (begin blocker → chain halt).  `CalculateUtilizationRatio` guards `totalSupply < 0` but divides by
-  `cash + borrows − reserves` when it is exactly zero.
--/
-theorem C08_accrue_no_panic_counterexample :
-    ¬ (∀ (cfg : Cfg) (s : St) (d : Denom) (now : Int) (phi : Dec) (apyPos : Bool), P ≤ phi.m →
-        0 ≤ s.borrowed d → 0 ≤ (cfg.mkt d).reserveFactor.m → (cfg.mkt d).reserveFactor.m ≤ P →
-        accrue cfg s d now phi apyPos ≠ .panic) := by
-  intro H
-  have hp : isPanic (accrue W.cfg W.stDiv0 0 1 ⟨P⟩ false) = true := by decide
-  have := H W.cfg W.stDiv0 0 1 ⟨P⟩ false (by decide) (by decide) (by decide) (by decide)
-  cases hacc : accrue W.cfg W.stDiv0 0 1 ⟨P⟩ false with
-  | panic => exact this hacc
-  | ok _ => rw [hacc] at hp; cases hp
-  | err _ => rw [hacc] at hp; cases hp
-
-/-- PARTIAL: with factor ≥ 1 and reserve factor in [0,1] the only panic of `AccrueInterest` is that division:
-    it cannot panic when cash + borrows ≠ reserves. -/
-theorem C08_accrue_no_panic_partial (cfg : Cfg) (s : St) (d : Denom) (now : Int) (phi : Dec) (apyPos : Bool)
+/-- `AccrueInterest` (begin blocker) never panics when the factor is ≥ 1, the reserve factor is in [0,1] and the
+    borrowed total is not negative: since fix 9da123695 `CalculateUtilizationRatio` no longer divides by
+    cash + borrows − reserves = 0.  (Finding fixed: findings/C08-accrue-div-zero.md.) -/
+theorem C08_accrue_no_panic (cfg : Cfg) (s : St) (d : Denom) (now : Int) (phi : Dec) (apyPos : Bool)
     (hphi : P ≤ phi.m) (hb : 0 ≤ s.borrowed d) (hrf0 : 0 ≤ (cfg.mkt d).reserveFactor.m)
-    (hrf1 : (cfg.mkt d).reserveFactor.m ≤ P) (htot : s.cash d + s.borrowed d - s.reserves d ≠ 0) :
+    (hrf1 : (cfg.mkt d).reserveFactor.m ≤ P) :
     accrue cfg s d now phi apyPos ≠ .panic :=
-  accrue_no_panic cfg s d now phi apyPos hphi hb hrf0 hrf1 htot
+  accrue_no_panic cfg s d now phi apyPos hphi hb hrf0 hrf1
+
+/-- the former witness (cash 0, borrowed 1, reserves 1) accrues without panic -/
+example : isPanic (accrue W.cfg W.stDiv0 0 1 ⟨P⟩ false) = false := by decide
 
 /-- "With no action by the user a deposit's claimable amount and a borrow's owed amount never decrease":
     for a stored amount `a ≥ 0` synced at a positive user factor, every sync formula of the keeper
@@ -295,16 +202,15 @@ theorem C08_synced_borrow_monotone_accrue (cfg : Cfg) (s s' : St) (d : Denom) (n
   · subst he; exact hd
   · rw [hoth e he]
 
-/-- … and, while reserves ≤ cash + borrows, every user's synced deposit (as `SyncSupplyInterest` computes it). -/
-theorem C08_synced_deposit_monotone_accrue_partial (cfg : Cfg) (s s' : St) (d : Denom) (now : Int) (phi : Dec)
+/-- … and every user's synced deposit (as `SyncSupplyInterest` computes it). -/
+theorem C08_synced_deposit_monotone_accrue (cfg : Cfg) (s s' : St) (d : Denom) (now : Int) (phi : Dec)
     (apyPos : Bool) (h0 : ∀ e v, s.supIdx e = some v → 0 ≤ v)
-    (hres : s.reserves d ≤ s.cash d + s.borrowed d)
     (hrec : ∀ u e, 0 ≤ s.dep u e ∧ ∀ v, s.depIdx u e = some v → 0 < v)
     (h : accrue cfg s d now phi apyPos = .ok s') :
     ∀ u e, syncSupAmt (s.dep u e) (s.depIdx u e) ((s.supIdx e).getD 0) ≤
            syncSupAmt (s'.dep u e) (s'.depIdx u e) ((s'.supIdx e).getD 0) := by
   obtain ⟨hdp, hdi, -, -, -, -, -⟩ := accrue_frame cfg s s' d now phi apyPos h
-  obtain ⟨hoth, -, hd⟩ := accrue_supIdx cfg s s' d now phi apyPos (h0 d) hres h
+  obtain ⟨hoth, -, hd⟩ := accrue_supIdx cfg s s' d now phi apyPos (h0 d) h
   intro u e
   rw [hdp, hdi]
   have hg0 : 0 ≤ (s.supIdx e).getD 0 := by
@@ -366,20 +272,20 @@ theorem C08_borrow_index_monotone_history (s : St) (h : List (Cfg × Op)) (hops 
     ∀ d, (s.brwIdx d).getD P ≤ ((run s h).brwIdx d).getD P :=
   run_brw h s hops hn
 
-/-- PARTIAL over histories: the supply index never decreases along a history in which every accrual runs on a
-    denom with reserves ≤ cash + borrows (`SolventRun`); the only operation that can lower it is an accrual in the
-    insolvent state of `C08_supply_index_monotone_counterexample`. -/
-theorem C08_supply_index_monotone_history_partial (s : St) (h : List (Cfg × Op)) (hsol : SolventRun s h)
+/-- … and so does the supply index, unconditionally on the factors. -/
+theorem C08_supply_index_monotone_history (s : St) (h : List (Cfg × Op))
     (hn : ∀ d v, s.supIdx d = some v → 0 ≤ v) :
     ∀ d, (s.supIdx d).getD P ≤ ((run s h).supIdx d).getD P :=
-  run_sup h s hsol hn
+  run_sup h s hn
 
-example : SolventRun W.st [(W.cfg, .borrow 0 W.half), (W.cfg, .accrue 1 31536000 ⟨P + P / 10⟩ true),
-    (W.cfg, .liquidate 1 0)] := by
-  refine ⟨trivial, ?_, trivial, trivial⟩
-  show (applyOp W.st (W.cfg, .borrow 0 W.half)).reserves 1 ≤
-    (applyOp W.st (W.cfg, .borrow 0 W.half)).cash 1 + (applyOp W.st (W.cfg, .borrow 0 W.half)).borrowed 1
-  decide
+example : ∀ x ∈ [(W.cfg, Op.borrow 0 W.small), (W.cfg, Op.accrue 1 31536000 ⟨P + P / 10⟩ true),
+    (W.cfgLow, Op.liquidate 1 0)], OpOk x.2 := by
+  intro x hx
+  simp only [List.mem_cons, List.not_mem_nil, or_false] at hx
+  rcases hx with rfl | rfl | rfl
+  · trivial
+  · show P ≤ P + P / 10; decide
+  · trivial
 
 /-- "never changes another user's position" for the user operations: a successful `Deposit`, `Withdraw`, `Borrow`
     by `u`, and a successful `Repay` of `owner`'s loan (by anyone), leave the deposit and borrow records of every other
@@ -437,10 +343,8 @@ theorem C08_liquidation_frame (cfg : Cfg) (hn : cfg.ds.Nodup)
   refine ⟨r1, ?_, r2, r3, r4, r5⟩
   rw [r1]; exact kb.2.2
 
-/-- non-vacuity: after the accepted second borrow of the F5 witness the position is liquidated (one auction) -/
-example : (match borrow W.cfg W.st 0 W.half with
-     | .ok s' => (match liquidate W.cfg s' 1 0 with | .ok s'' => s''.aucs.length | _ => 0)
-     | _ => 0) = 1 := by decide
+/-- non-vacuity: after the collateral price falls to 0.4 the position of user 0 is liquidated (one auction) -/
+example : (match liquidate W.cfgLow W.st 1 0 with | .ok s'' => s''.aucs.length | _ => 0) = 1 := by decide
 
 example : W.cfg.ds.Nodup := by decide
 
